@@ -115,6 +115,10 @@ pub fn sched_release() {
     }
 }
 
+pub fn sched_on() -> bool {
+    SCHED_ON.load(Ordering::Relaxed)
+}
+
 pub fn sched_remove() {
     SCHED_ON.store(false, Ordering::SeqCst);
     *SCHED.write().unwrap() = None;
